@@ -2,19 +2,14 @@
 
 package ntpestimator
 
-import "time"
-
 // Helper definition of internal/ntpestimator (estimator.go) and its only caller:
 //
 //	multiplyAndDivide  estimator.go:44  (pts-refPTS ticks, time.Second, ClockRate [int])             ticks->ns
+//
+// Each helper registers itself from its own file (c24_h_*_test.go), so that a tree in which a helper was
+// removed or renamed still lets the driver build the other helpers of the package (optional harness files).
+var c24Registry []c24Helper
+
 func c24Helpers() (string, []c24Helper) {
-	return "internal/ntpestimator", []c24Helper{
-		{
-			name: "ntpestimator.multiplyAndDivide",
-			fn: func(v, m, d int64) int64 {
-				return int64(multiplyAndDivide(time.Duration(v), time.Duration(m), time.Duration(d)))
-			},
-			shapes: []c24Shape{c24TicksToNs},
-		},
-	}
+	return "internal/ntpestimator", c24Registry
 }
